@@ -56,7 +56,7 @@ let rec state (a : archive) (level : int) : string =
     let s = Printf.sprintf " | sz=%s d=%s t=[%s] p=[%s] l=[%s] pd=[%s]" (dec_of_n sz) (show_b a.a_data) ts ps lss
         (String.concat "," (List.map dec_of_n dests)) in
     if level >= 2 then
-      (match BinFormat.serialize Checked a with
+      (match BinFormat.serialize_k name_key Checked a with
        | Ok b ->
          let rcs =
            (match BinFormat.from_bytes a.a_endian b with
@@ -70,7 +70,7 @@ let rec state (a : archive) (level : int) : string =
                   | _ -> dec_of_n k ^ ":?") cells) ^ "]"
               ^ (if level >= 3 then
                    " re:" ^ state re 1 ^
-                   (match BinFormat.serialize Checked re with
+                   (match BinFormat.serialize_k name_key Checked re with
                     | Ok b2 -> " reser=" ^ (if b2 = b then "same" else show_b b2)
                     | _ -> " reser=err")
                  else "")
@@ -155,7 +155,7 @@ let ba (toks : string list) : string =
                 | Some x -> "some:" ^ dec_of_n x
                 | None -> "none"), 1)
           | "ser" ->
-            ((match BinFormat.serialize Checked !a with
+            ((match BinFormat.serialize_k name_key Checked !a with
                 | Ok b -> "ok:" ^ show_b b
                 | Err _ -> "err:other"
                 | Panic _ -> "PANIC"), 0)
